@@ -89,7 +89,7 @@ class SynContract:
                 n = counts.get(k, 0)
                 counts[k] = n + 1
                 nm = '%s/%s/%s#%d' % (self.prop, self.cname, k, n)
-                out['results'].append(dict(name=nm, kind=k, verdict=ob['verdict'], backend='syntactic(ast)', seconds=0.0, note=ob.get('note', ''),
+                out['results'].append(dict(name=nm, kind=k, verdict=ob['verdict'], backend=ob.get('backend', 'syntactic(ast)'), seconds=0.0, note=ob.get('note', ''),
                                            reason=ob.get('note') if ob['verdict'] == 'undecided' else None, expect='unsat',
                                            func='%s/%s' % (self.prop, self.cname)))
                 if ob['verdict'] == 'refuted':
@@ -624,16 +624,30 @@ def rng_chain(e, imps):
     return None
 
 
+def norm_test(t):
+    """normal form of the two guard shapes the frame knows: `seed == 'global'` and `seed is None` (operands in either order)"""
+    if isinstance(t, ast.Compare) and len(t.ops) == 1 and len(t.comparators) == 1:
+        a, b, op = t.left, t.comparators[0], t.ops[0]
+        if isinstance(a, ast.Constant) and isinstance(b, ast.Name):
+            a, b = b, a
+        if isinstance(a, ast.Name) and isinstance(b, ast.Constant):
+            if isinstance(op, ast.Eq) and isinstance(b.value, str):
+                return "%s == '%s'" % (a.id, b.value)
+            if isinstance(op, ast.Is) and b.value is None:
+                return '%s is None' % a.id
+    return src(t)
+
+
 def guards(n):
-    """the conditions that dominate expression n inside its function: [(test source, branch)]"""
+    """the conditions that dominate expression n inside its function: [(normalised test, branch)]"""
     out = []
     c = n
     while getattr(c, '_parent', None) is not None:
         p = c._parent
         if isinstance(p, ast.If) and c._field in ('body', 'orelse'):
-            out.append((src(p.test), c._field == 'body'))
+            out.append((norm_test(p.test), c._field == 'body'))
         if isinstance(p, ast.IfExp) and c is not p.test:
-            out.append((src(p.test), c is p.body))
+            out.append((norm_test(p.test), c is p.body))
         c = p
     return out
 
@@ -662,7 +676,7 @@ def guarded_by(n, fn, tests):
             if not any(b and t == 'seed is None' for t, b in guards(a)):
                 return False
     for t, branch in guards(n):
-        if branch and t.replace('"', "'") in tests:
+        if branch and t in tests:
             return True
     return False
 
@@ -709,6 +723,11 @@ class RngFrame(SynContract):
                     own = ['%s::%s' % (path, nm)] if '%s::%s' % (path, nm) in ix.defs else []
                     if tgt.startswith('elfi.'):
                         own = [d for d in ix.by_name.get(tgt.split('.')[-1], []) if ix.defs[d][2] is None or d.endswith('.__init__')]
+                        if not own and not isinstance(n._parent, ast.Attribute):
+                            # a function / class imported from an elfi module outside the footprint modules, or a class without __init__
+                            cls_known = any(dd.startswith(tgt.rsplit('.', 1)[0].replace('.', '/') + '.py::' + nm + '.') for dd in ix.defs)
+                            if not cls_known:
+                                unresolved.setdefault('%s (%s)' % (nm, tgt), k)
                     elif '%s::%s.__init__' % (path, nm) in ix.defs:
                         own = ['%s::%s.__init__' % (path, nm)]
                     for d in own:
@@ -720,6 +739,9 @@ class RngFrame(SynContract):
                         work.append(d)
         yield dict(kind='frame[call graph of the seeded path is closed under name resolution]', verdict='discharged',
                    note='%d functions reached from %d roots: %s ...' % (len(order), len(ROOTS), ', '.join(sorted(x.split('::')[1] for x in order))[:400]))
+        for what, where in sorted(unresolved.items()):
+            yield dict(kind='frame[every elfi function referenced on the seeded path lies in the analysed modules]', verdict='undecided',
+                       note='%s referenced in %s is defined outside %s' % (what, where.split('::')[1], ', '.join(MODULES)))
         for need in ('elfi/loader.py::RandomStateLoader.load', 'elfi/executor.py::Executor.execute', 'elfi/executor.py::nx_constant_topological_sort',
                      'elfi/utils.py::get_sub_seed', 'elfi/client.py::ClientBase.load_data', 'elfi/model/elfi_model.py::ComputationContext.__init__',
                      'elfi/clients/native.py::Client.apply_sync', 'elfi/loader.py::PoolLoader.load', 'elfi/compiler.py::RandomStateCompiler.compile'):
@@ -857,7 +879,12 @@ def private_name_scheme(repo=None):
 
         def _new_name(self, basename='', model=None):
             return new_name(self, basename, model)
-    add_parents(_Self(), [0])
+    try:
+        add_parents(_Self(), [0])
+    except OutOfSubset:
+        raise
+    except Exception as e:          # a naming scheme this extraction does not understand: undecided (fail closed)
+        raise OutOfSubset('private constant naming: %s: %s' % (type(e).__name__, e))
     if len(made) != 1 or not isinstance(made[0], str):
         raise OutOfSubset('private constant naming: expected one Constant(name=<str>), got %r' % (made,))
     pieces = []
@@ -1005,14 +1032,15 @@ class NameOrder(SynContract):
                 m = sv.model()
                 return 'refuted', {n: text(m, v) for n, v in names.items()}
             return 'undecided', None
+        ZB = 'z3-%s(bounded strings)' % z3.get_version_string()
         bound = 'all names of length 1..%d over [A-Za-z0-9_] not starting with "_", all %d-digit hex suffixes (integer code-point encoding, z3)' % (N, nhex)
         base = 'post[user-node order is a function of the user-visible graph: '
         v, w = decide([user(u), user(o1), sfx(s1), sfx(t1)], lt(u, P(o1, s1)) == lt(u, P(o1, t1)), dict(u=u, o1=o1, s1=s1, t1=t1))
         yield dict(kind=base + 'a user name and a private constant keep their relative sort position when the suffix is re-drawn]', verdict=v,
-                   note=bound, witness=w)
+                   note=bound, witness=w, backend=ZB)
         for r in ('_random_state', '_batch_size', '_meta'):
             v, w = decide([user(o1), sfx(s1), sfx(t1)], lt(lit(r), P(o1, s1)) == lt(lit(r), P(o1, t1)), dict(o1=o1, s1=s1, t1=t1))
-            yield dict(kind=base + 'the instruction node %s and a private constant keep their relative sort position]' % r, verdict=v, note=bound, witness=w)
+            yield dict(kind=base + 'the instruction node %s and a private constant keep their relative sort position]' % r, verdict=v, note=bound, witness=w, backend=ZB)
         # names DERIVED from two different owners: private constant vs private constant, observed copy vs private constant.
         # Witness preference (the obligation is the universal statement either way): two private constants of owners that start with a
         # lower-case letter - then every user name sorts after every private name and the constants are the first DFS roots.
@@ -1031,4 +1059,52 @@ class NameOrder(SynContract):
             kind_w = 'observed-copy'
         yield dict(kind=base + 'names derived from DIFFERENT owners (private constants, observed copies) keep their relative sort position when the random suffixes are re-drawn]',
                    verdict=v, note=('counter-model (%s): owners %r, %r with suffixes %s/%s vs %s/%s' % (kind_w, w['o1'], w['o2'], w['s1'], w['s2'], w['t1'], w['t2'])) if w else bound,
-                   witness=dict(w, kind=kind_w) if w else None)
+                   witness=dict(w, kind=kind_w) if w else None, backend=ZB)
+
+
+# ====================================================================== writers of loaded nets that use a context of their own
+class FreshContextFrame(SynContract):
+    """cache_consistent holds trivially for a context that is created for ONE load_data call: its executor cache is empty.
+    Checked: (i) ComputationContext.__init__ binds self.caches to a literal {'executor': {}, 'sub_seed': {}};
+    (ii) in ElfiModel.generate, ModelPrior.rvs, ModelPrior._evaluate_pdf the context handed to load_data is a local bound exactly once,
+    to a ComputationContext(...) call, and load_data is called once (no loop) - so overriding nodes afterwards (rvs, _evaluate_pdf)
+    cannot make an EARLIER cache entry stale."""
+    label = 'fresh-context-frame'
+    target = 'elfi/model/elfi_model.py::ComputationContext.__init__'
+    USERS = ['elfi/model/elfi_model.py::ElfiModel.generate', 'elfi/model/extensions.py::ModelPrior.rvs', 'elfi/model/extensions.py::ModelPrior._evaluate_pdf']
+
+    def obligations(self, repo):
+        loc, fn = fn_ast(self.target, repo)
+        ok = False
+        for a in ast.walk(fn):
+            if isinstance(a, ast.Assign) and len(a.targets) == 1 and src(a.targets[0]) == 'self.caches' and isinstance(a.value, ast.Dict):
+                keys = [k.value for k in a.value.keys if isinstance(k, ast.Constant)]
+                ok = sorted(keys) == ['executor', 'sub_seed'] and all(isinstance(v, ast.Dict) and not v.keys for v in a.value.values)
+        writes = [a for a in ast.walk(fn) if isinstance(a, (ast.Assign, ast.AugAssign)) and 'caches' in src(a.targets[0] if isinstance(a, ast.Assign) else a.target)]
+        yield dict(kind="frame[a new ComputationContext has empty caches: self.caches = {'executor': {}, 'sub_seed': {}}, bound once]",
+                   verdict='discharged' if ok and len(writes) == 1 else 'undecided', note='%d assignment(s) to caches in __init__' % len(writes))
+        for t in self.USERS:
+            try:
+                l2, f2 = fn_ast(t, repo)
+            except OutOfSubset as e:
+                yield dict(kind='frame[%s loads with a context of its own]' % t.split('::')[1], verdict='undecided', note=str(e))
+                continue
+            loads = [c for c in ast.walk(f2) if isinstance(c, ast.Call) and call_name(c) == 'load_data']
+            good = len(loads) == 1
+            note = '%d load_data call(s)' % len(loads)
+            if good:
+                c = loads[0]
+                arg = c.args[1] if len(c.args) >= 2 else next((kw.value for kw in c.keywords if kw.arg == 'context'), None)
+                in_loop = any(isinstance(p, (ast.For, ast.While)) for p in _ancestors(c))
+                defs = [a for a in ast.walk(f2) if isinstance(a, ast.Assign) and isinstance(arg, ast.Name) and any(isinstance(x, ast.Name) and x.id == arg.id for x in a.targets)]
+                good = isinstance(arg, ast.Name) and not in_loop and len(defs) == 1 and isinstance(defs[0].value, ast.Call) and call_name(defs[0].value) == 'ComputationContext' \
+                    and not any(isinstance(p, (ast.For, ast.While)) for p in _ancestors(defs[0]))
+                note = 'load_data(..., %s, ...) with %s' % (src(arg), src(defs[0])[:80] if defs else '?')
+            yield dict(kind='frame[%s loads once, with a ComputationContext created in the same call (empty executor cache)]' % t.split('::')[1],
+                       verdict='discharged' if good else 'undecided', note=note)
+
+
+def _ancestors(n):
+    while getattr(n, '_parent', None) is not None:
+        n = n._parent
+        yield n
